@@ -37,6 +37,12 @@ inductive Shape where
   | seq (items : List Shape)
   /-- struct: position in the list = reflect field index -/
   | struct (fields : List (FieldInfo × Shape))
+  /-- a non-nil interface value and what it holds; a nil interface (`resolvePath` does not look into
+      either: to it they are like `other`; the redaction walk does) -/
+  | iface (s : Shape)
+  | nilIface
+  /-- a map with its entries, keys as `fmt.Sprint` prints them (order immaterial) -/
+  | map (entries : List (Bytes × Shape))
   deriving Repr, Inhabited
 
 /-- where a path resolved to: field indices and element indices from the root, in order -/
@@ -191,11 +197,60 @@ def elementTag : Bytes → Nat → Bytes
     | some rest => elementTag rest d
     | none => []
 
-/-- `validator.Var(value, tag)` as a table: location of the value, the tag, what it reports; the paths a
-    violation reveals are relative to the value (`[]` itself, `.a.0` something nested) -/
-abbrev VarTable := List (Loc × Bytes × List Viol)
+/-! ### the redaction walk (`coversValue`) -/
 
-def varLookup (tab : VarTable) (loc : Loc) (tag : Bytes) : List Viol :=
+/-- `for val.Kind() == reflect.Pointer || val.Kind() == reflect.Interface { if val.IsNil() { return false }; … }` -/
+def valDeref : Shape → Option Shape
+  | .ptr s => valDeref s
+  | .iface s => valDeref s
+  | .nilPtr => none
+  | .nilIface => none
+  | s => some s
+
+/-- what `for name, index := range v.getFieldMap(val.Type())` visits: per JSON name the field the map holds
+    for it (the last one entered), never a `json:"-"` field; the iteration order of the map is immaterial -/
+def mappedFields (fields : List (FieldInfo × Shape)) : List (Bytes × FieldInfo × Shape) :=
+  (fields.zipIdx).filterMap fun ((f, s), i) =>
+    if mapsTo f (jsonFieldName f) && fieldIndex fields (jsonFieldName f) == some i then some (jsonFieldName f, f, s)
+    else none
+
+/-- the paths whose values printing the value reveals, as `coversValue` walks them: the path itself; below a
+    struct its mapped fields (`path.name`; the fields of a promoted embedded struct belong to `path` itself),
+    below a slice or array `path.i`, below a map `path.key`; pointers and interfaces are looked through.
+    `fuel` = `maxRecursionDepth + 1 - depth`. -/
+def reveals : Nat → Path → Shape → List Path
+  | 0, p, _ => [p]
+  | fuel + 1, p, s =>
+    p :: (match valDeref s with
+      | some (.struct fields) =>
+        (mappedFields fields).flatMap fun (name, f, fs) =>
+          reveals fuel (if isPromotedStruct f then p else p ++ '.' :: name) fs
+      | some (.seq items) => (items.zipIdx).flatMap fun (it, i) => reveals fuel (p ++ '.' :: itoa i) it
+      | some (.map es) => es.flatMap fun (k, v) => reveals fuel (p ++ '.' :: k) v
+      | _ => [])
+
+/-- `coversValue(redactor, path, val, depth)`: the redactor covers the path or something the value reveals;
+    too deep to inspect (`depth > maxRecursionDepth`, here `fuel = 0`): hide rather than reveal -/
+def coversValue (red : Path → Bool) : Nat → Path → Shape → Bool
+  | 0, _, _ => true
+  | fuel + 1, p, s =>
+    red p || (match valDeref s with
+      | some (.struct fields) =>
+        (mappedFields fields).any fun (name, f, fs) =>
+          coversValue red fuel (if isPromotedStruct f then p else p ++ '.' :: name) fs
+      | some (.seq items) => (items.zipIdx).any fun (it, i) => coversValue red fuel (p ++ '.' :: itoa i) it
+      | some (.map es) => es.any fun (k, v) => coversValue red fuel (p ++ '.' :: k) v
+      | _ => false)
+
+/-- `result.Add(path, "tag."+e.Tag(), msg, meta)` with the value hidden when `coversValue` says so -/
+def mkErrT (o : Opts) (p : Path) (tag : Bytes) (value : Shape) : FieldErr :=
+  { path := p, code := tagPrefix ++ tag, hidden := coversValue o.redacted.contains (maxRecursionDepth + 1) p value }
+
+/-- `validator.Var(value, tag)` as a table: location of the value, the tag, what it reports: per error its tag
+    and the shape of `e.Value()` (for a `dive` rule the failing element, else the value itself) -/
+abbrev VarTable := List (Loc × Bytes × List (Bytes × Shape))
+
+def varLookup (tab : VarTable) (loc : Loc) (tag : Bytes) : List (Bytes × Shape) :=
   match tab.find? fun e => e.1 == loc && e.2.1 == tag with
   | some e => e.2.2
   | none => []
@@ -209,10 +264,12 @@ def ruleAt (root : Shape) (p : Path) : Option (Loc × Bytes) :=
     let t := elementTag ((r.field.map (·.validate)).getD []) r.elemDepth
     if t.isEmpty then none else some (r.loc, t)
 
-/-- the body of the leaf loop of `validatePartialLeafsOnly` up to `Var`: what is reported for path `p` -/
+/-- the body of the leaf loop of `validatePartialLeafsOnly` up to `Var`: what is reported for path `p`, with the
+    paths each reported value reveals (`mkErr` hides the value when the redactor covers one of them, which is
+    what `coversValue` computes: `Rivaas.C05.mkErr_is_coversValue`) -/
 def ownTagsT (root : Shape) (var : VarTable) (p : Path) : List Viol :=
   match ruleAt root p with
-  | some (loc, t) => (varLookup var loc t).map fun v => { v with shows := v.shows.map (p ++ ·) }
+  | some (loc, t) => (varLookup var loc t).map fun v => { tag := v.1, shows := reveals (maxRecursionDepth + 1) p v.2 }
   | none => []
 
 /-- `validatePartialLeafsOnly(val, cfg)` with `cfg.presence = pm`, path resolution included -/
